@@ -15,6 +15,7 @@
 package main
 
 import (
+	"context"
 	"encoding/json"
 	"fmt"
 	"io"
@@ -24,15 +25,23 @@ import (
 	"regexp"
 	"runtime"
 	"sort"
+	"strings"
+	"sync"
 	"time"
 
 	"google.golang.org/protobuf/types/known/timestamppb"
+	"reduction.dev/reduction-protocol/handlerpb"
+	"reduction.dev/reduction/batching"
+	"reduction.dev/reduction/connectors/embedded"
 	"reduction.dev/reduction/dkv"
 	"reduction.dev/reduction/dkv/recovery"
 	"reduction.dev/reduction/dkv/storage"
 	"reduction.dev/reduction/partitioning"
+	"reduction.dev/reduction/proto/jobpb"
 	"reduction.dev/reduction/proto/workerpb"
+	"reduction.dev/reduction/util/verifhook"
 	"reduction.dev/reduction/workers/operator"
+	"reduction.dev/reduction/workers/workerstest"
 	"verifharness/hx"
 )
 
@@ -45,6 +54,12 @@ func (eng) CoqRequire(mode string) string {
 func (eng) CoqCaseType(mode string) string { return "Check_timers.case" }
 func (eng) CoqRun(mode string) string      { return "Check_timers.run" }
 func (eng) Rule(mode string) string {
+	if mode == "c10op" {
+		return "a real operator.Operator (memory:// storage, 16 key groups, event batch size 1, DKV memtable and timer cache re-tuned through the verif hooks to 64 B..1 MB / 0..100000 B) " +
+			"with a scripted handler: keyed events whose handler result registers timers (operator.go processEventBatch -> SetTimer), watermark messages from 1-3 source runners " +
+			"(handleWatermark -> AdvanceWatermark), and handler results to TimerExpired events that register further timers while the advance is still firing. " +
+			"Observed: the TimerExpired (key, timestamp) events the handler receives per watermark message. Non-trivial: some group's pending timers exceeded its cache budget and at least two messages fired timers."
+	}
 	return "real TimerRegistry+TimerStore over a real dkv.DB (memory fs, memtable 64 B .. 1 MB so that flushes and compactions happen); " +
 		"key-group counts 1..16 split over 1..3 operators (one operator's range is driven), 1-8 subject keys of 1-6 bytes placed in that range, " +
 		"per-group cache budgets 0 / 1 / one entry / two entries / a few / more than the whole timer set, " +
@@ -61,6 +76,7 @@ type opJ struct {
 	Op     string  `json:"op"`            // set | adv | restore
 	Key    []byte  `json:"key,omitempty"` // set
 	T      int64   `json:"t,omitempty"`   // set: UnixNano; adv: watermark UnixNano
+	More   []int64 `json:"more,omitempty"` // set: further timestamps registered for the same key by the same handler result
 	Sr     int     `json:"sr,omitempty"`  // adv: sender number
 	How    string  `json:"how,omitempty"` // restore: same | ckpt
 	During []durJ  `json:"during,omitempty"`
@@ -338,6 +354,9 @@ func genCase(r *hx.Rand, idx int, tier string) *hx.Case {
 }
 
 func (eng) Generate(mode, tier string, r *hx.Rand) []*hx.Case {
+	if mode == "c10op" {
+		return genOpCases(tier, r)
+	}
 	n := 700
 	if tier == "thorough" {
 		n = 6000
@@ -388,7 +407,11 @@ func (e eng) Execute(mode string, c *hx.Case) (*hx.Result, error) {
 			}
 			ch <- r
 		}()
-		r.res, r.err = e.execute(mode, c)
+		if mode == "c10op" {
+			r.res, r.err = e.executeOp(c)
+		} else {
+			r.res, r.err = e.execute(mode, c)
+		}
 	}()
 	select {
 	case r := <-ch:
@@ -465,8 +488,13 @@ func (eng) execute(mode string, c *hx.Case) (*hx.Result, error) {
 			if o.T < 0 {
 				tags["pre-epoch"] = true
 			}
-			setTimer(o.Key, o.T)
-			coqOps = append(coqOps, fmt.Sprintf("SetTimer %s %s", hx.CoqBytes(o.Key), hx.CoqZ(o.T)))
+			for _, t := range append([]int64{o.T}, o.More...) {
+				if t < 0 {
+					tags["pre-epoch"] = true
+				}
+				setTimer(o.Key, t)
+				coqOps = append(coqOps, fmt.Sprintf("SetTimer %s %s", hx.CoqBytes(o.Key), hx.CoqZ(t)))
+			}
 		case "adv":
 			var out []firedJ
 			var dur []string
@@ -570,6 +598,266 @@ func (eng) execute(mode string, c *hx.Case) (*hx.Result, error) {
 	}
 	sort.Strings(tl)
 	return &hx.Result{Term: term, Nontrivial: overflow && nRestore > 0 && nYielding >= 2, Tags: tl, Observed: observed}, nil
+}
+
+// ---------- mode c10op: the same histories through a real Operator ----------
+
+func genOpCases(tier string, r *hx.Rand) []*hx.Case {
+	n := 120
+	if tier == "thorough" {
+		n = 900
+	}
+	a, b := r.U64(), r.U64()
+	r = hx.NewRand(a*0x2545F4914F6CDD1D ^ (b >> 11) ^ (b << 29) ^ 0x6f70)
+	ks := partitioning.NewKeySpace(16, 1)
+	rng := ks.KeyGroupRanges()[0]
+	var cs []*hx.Case
+	for i := 0; len(cs) < n; i++ {
+		rr := r.Fork()
+		nkeys := 1 + rr.Intn(6)
+		var keys [][]byte
+		for len(keys) < nkeys {
+			keys = append(keys, []byte(fmt.Sprintf("k%d", rr.Intn(40))))
+		}
+		nsr := 1 + rr.Intn(3)
+		srids := make([]int, nsr)
+		for j := range srids {
+			srids[j] = j
+		}
+		perGroup := hx.Pick(rr, []int{0, 1, 13, 14, 26, 30, 40, 60, 100000})
+		g := &genState{r: rr, ks: ks, rng: rng, keys: keys, srids: srids,
+			unit: hx.Pick(rr, []int64{1, 1_000_000_000, 1 << 40}), dom: hx.Pick(rr, []int{6, 12, 30}),
+			known: map[int]bool{}, wmOf: map[int]int64{}}
+		for _, s := range srids {
+			g.known[s] = true
+			g.wmOf[s] = 0
+		}
+		nops := 8 + rr.Intn(30)
+		for len(g.ops) < nops {
+			switch x := rr.Intn(100); {
+			case x < 60:
+				bn := 1
+				if rr.Chance(1, 3) {
+					bn = 2 + rr.Intn(8)
+				}
+				for j := 0; j < bn; j++ {
+					o := g.genSet()
+					if rr.Chance(1, 3) {
+						for m := 1 + rr.Intn(3); m > 0; m-- {
+							o.More = append(o.More, g.genSet().T)
+						}
+					}
+					g.emit(o)
+				}
+			case x < 80:
+				g.genAdv(false)
+			default:
+				g.genAdv(true)
+			}
+		}
+		// known senders only (an unknown sender is rejected by the operator before it reaches the registry)
+		var ops []json.RawMessage
+		for _, raw := range g.ops {
+			var o opJ
+			json.Unmarshal(raw, &o)
+			if o.Op == "adv" && o.Sr >= nsr {
+				continue
+			}
+			ops = append(ops, raw)
+		}
+		g.ops = ops
+		g.known = map[int]bool{}
+		for _, s := range srids {
+			g.known[s] = true
+		}
+		g.finalDrain()
+		cs = append(cs, &hx.Case{
+			Name:   fmt.Sprintf("timers-op-%d", i),
+			Params: map[string]any{"mode": "c10op", "cache": perGroup*16 + rr.Intn(16), "memtable": hx.Pick(rr, []uint64{64, 128, 256, 1024, 1 << 20}), "srids": srids},
+			Ops:    g.ops,
+		})
+	}
+	return cs
+}
+
+// scripted handler: a keyed event's value is the JSON list of timers to register for its key; the answer to the n-th
+// TimerExpired event of the current watermark message registers the timers scripted for "after yield n".
+type opHandler struct {
+	mu     sync.Mutex
+	during []durJ
+	n      int
+	fired  []firedJ
+}
+
+func (h *opHandler) ProcessEventBatch(ctx context.Context, req *handlerpb.ProcessEventBatchRequest) (*handlerpb.ProcessEventBatchResponse, error) {
+	h.mu.Lock()
+	defer h.mu.Unlock()
+	resp := &handlerpb.ProcessEventBatchResponse{}
+	for _, e := range req.Events {
+		switch ev := e.Event.(type) {
+		case *handlerpb.Event_KeyedEvent:
+			var ts []int64
+			if err := json.Unmarshal(ev.KeyedEvent.Value, &ts); err != nil {
+				return nil, err
+			}
+			kr := &handlerpb.KeyResult{Key: ev.KeyedEvent.Key}
+			for _, t := range ts {
+				kr.NewTimers = append(kr.NewTimers, timestamppb.New(time.Unix(0, t)))
+			}
+			resp.KeyResults = append(resp.KeyResults, kr)
+		case *handlerpb.Event_TimerExpired:
+			h.n++
+			h.fired = append(h.fired, firedJ{K: append([]byte{}, ev.TimerExpired.Key...), T: ev.TimerExpired.Timestamp.AsTime().UnixNano()})
+			for _, d := range h.during {
+				if d.After == h.n {
+					resp.KeyResults = append(resp.KeyResults, &handlerpb.KeyResult{Key: d.Key, NewTimers: []*timestamppb.Timestamp{timestamppb.New(time.Unix(0, d.T))}})
+				}
+			}
+		}
+	}
+	return resp, nil
+}
+func (h *opHandler) KeyEventBatch(ctx context.Context, events [][]byte) ([][]*handlerpb.KeyedEvent, error) {
+	return nil, fmt.Errorf("not used")
+}
+
+var opSeq int
+
+func (eng) executeOp(c *hx.Case) (*hx.Result, error) {
+	cf := cfgOf(c)
+	verifhook.SetTuning("timer_cache_bytes", cf.Cache)
+	verifhook.SetTuning("dkv", dkv.VerifDBTuning{MemTableSize: cf.MemTable})
+	defer verifhook.SetTuning("timer_cache_bytes", nil)
+	defer verifhook.SetTuning("dkv", nil)
+	srNames := make([]string, len(cf.SrIDs))
+	for i, id := range cf.SrIDs {
+		srNames[i] = srName(id)
+	}
+	h := &opHandler{}
+	op := operator.NewOperator(operator.NewOperatorParams{
+		ID:            "op1",
+		UserHandler:   h,
+		Job:           &workerstest.DummyJob{},
+		EventBatching: batching.EventBatcherParams{MaxSize: 1}, // every event is handled as soon as it is added
+	})
+	op.Logger = quiet
+	ctx, cancel := context.WithCancel(context.Background())
+	defer cancel()
+	done := make(chan error, 1)
+	go func() { done <- op.Start(ctx) }()
+	opSeq++
+	if err := op.HandleDeploy(ctx, &workerpb.DeployOperatorRequest{
+		Operators:       []*jobpb.NodeIdentity{{Id: "op1", Host: "h"}},
+		SourceRunnerIds: srNames,
+		KeyGroupCount:   16,
+		StorageLocation: fmt.Sprintf("memory:///c10-%d", opSeq),
+	}, &embedded.RecordingSink{}); err != nil {
+		return nil, err
+	}
+	send := func(sender string, ev *workerpb.Event) error {
+		var err error
+		for try := 0; try < 400; try++ {
+			err = op.HandleEvent(ctx, sender, ev)
+			if err == nil || !strings.Contains(err.Error(), "not ready") {
+				return err
+			}
+			time.Sleep(time.Millisecond)
+		}
+		return err
+	}
+	ks := partitioning.NewKeySpace(16, 1)
+	var coqOps []string
+	var observed [][]firedJ
+	pendingBytes := map[int]int{}
+	overflow := false
+	nYielding := 0
+	tags := map[string]bool{}
+	for i, raw := range c.Ops {
+		var o opJ
+		if err := json.Unmarshal(raw, &o); err != nil {
+			return nil, fmt.Errorf("op %d: %v", i, err)
+		}
+		switch o.Op {
+		case "set":
+			val, _ := json.Marshal(append([]int64{o.T}, o.More...))
+			ev := &workerpb.Event{Event: &workerpb.Event_KeyedEvent{KeyedEvent: &handlerpb.KeyedEvent{Key: o.Key, Value: val}}}
+			if err := send(srNames[0], ev); err != nil {
+				return nil, fmt.Errorf("op %d: HandleEvent: %v", i, err)
+			}
+			pendingBytes[int(ks.KeyGroup(o.Key))] += 11 + len(o.Key)
+			if pendingBytes[int(ks.KeyGroup(o.Key))] > int(cf.Cache/16) {
+				overflow = true
+			}
+			for _, t := range append([]int64{o.T}, o.More...) {
+				coqOps = append(coqOps, fmt.Sprintf("SetTimer %s %s", hx.CoqBytes(o.Key), hx.CoqZ(t)))
+			}
+			if len(o.More) > 0 {
+				tags["several-timers-in-one-result"] = true
+			}
+		case "adv":
+			h.mu.Lock()
+			h.during, h.n, h.fired = o.During, 0, nil
+			h.mu.Unlock()
+			ev := &workerpb.Event{Event: &workerpb.Event_Watermark{Watermark: &workerpb.Watermark{Timestamp: timestamppb.New(time.Unix(0, o.T))}}}
+			if err := send(srName(o.Sr), ev); err != nil {
+				return nil, fmt.Errorf("op %d: HandleEvent: %v", i, err)
+			}
+			h.mu.Lock()
+			out := h.fired
+			h.during, h.fired = nil, nil
+			h.mu.Unlock()
+			for _, f := range out {
+				pendingBytes[int(ks.KeyGroup(f.K))] -= 11 + len(f.K)
+			}
+			if len(out) > 0 {
+				nYielding++
+			}
+			observed = append(observed, out)
+			var dur []string
+			for _, d := range o.During {
+				dur = append(dur, fmt.Sprintf("(%s, %s, %s)", hx.CoqNat(d.After), hx.CoqBytes(d.Key), hx.CoqZ(d.T)))
+				if d.After <= len(out) {
+					tags["set-during-advance"] = true
+				}
+			}
+			if len(dur) == 0 {
+				coqOps = append(coqOps, fmt.Sprintf("Advance %s %s", hx.CoqN(uint64(o.Sr)), hx.CoqZ(o.T)))
+			} else {
+				coqOps = append(coqOps, fmt.Sprintf("AdvanceSet %s %s %s", hx.CoqN(uint64(o.Sr)), hx.CoqZ(o.T), hx.CoqList(dur, "nat * bytes * Z")))
+			}
+		default:
+			return nil, fmt.Errorf("op %d: op %q is not available through the operator", i, o.Op)
+		}
+	}
+	op.Stop()
+	select {
+	case <-done:
+	case <-time.After(5 * time.Second):
+		return nil, fmt.Errorf("operator did not stop")
+	}
+	var obs []string
+	for _, out := range observed {
+		fs := make([]string, len(out))
+		for i, f := range out {
+			fs[i] = coqFired(f)
+		}
+		obs = append(obs, hx.CoqList(fs, "bytes * Z"))
+	}
+	srs := make([]string, len(cf.SrIDs))
+	for i, id := range cf.SrIDs {
+		srs[i] = hx.CoqN(uint64(id))
+	}
+	term := fmt.Sprintf("TC 16%%N 0%%N 16%%N %s %s\n  %s\n  %s", hx.CoqN(cf.Cache), hx.CoqList(srs, "N"), hx.CoqList(coqOps, "op"), hx.CoqList(obs, "list (bytes * Z)"))
+	if overflow {
+		tags["cache-overflow"] = true
+	}
+	tags[fmt.Sprintf("yielding-messages-%d", min(nYielding, 3))] = true
+	var tl []string
+	for t := range tags {
+		tl = append(tl, t)
+	}
+	sort.Strings(tl)
+	return &hx.Result{Term: term, Nontrivial: overflow && nYielding >= 2, Tags: tl, Observed: observed}, nil
 }
 
 func main() { hx.Main(eng{}) }
